@@ -16,6 +16,7 @@ mod c12;
 mod c13;
 mod c14;
 mod c15;
+mod c16;
 mod zipx;
 mod c17;
 mod c18;
@@ -41,6 +42,8 @@ fn main() {
         "c13sink" => c13::sink_cmd(&args),
         "c14" => c14::run(&args),
         "c15" => c15::run(&args),
+        "c16" => c16::run(&args),
+        "c16stress" => c16::stress_cmd(&args),
         "c17" => c17::run(&args),
         "c18" => c18::run(&args),
         "c19" => c19::run(&args),
